@@ -88,6 +88,30 @@ func main() {
 					return nil
 				})
 			}
+			// reserved-bit helpers and state arithmetic, all values
+			for rsv := 0; rsv < 256; rsv++ {
+				rsv := byte(rsv)
+				t.Do(func() string { return fmt.Sprintf("rsv byte %#x", rsv) }, func() *explore.Fail {
+					h := ws.Header{Rsv: rsv}
+					r1, r2, r3 := ws.RsvBits(rsv)
+					if r1 != (rsv&4 != 0) || r2 != (rsv&2 != 0) || r3 != (rsv&1 != 0) || h.Rsv1() != r1 || h.Rsv2() != r2 || h.Rsv3() != r3 {
+						return explore.Failf("rsv-bit-helpers", "rsv=%03b: RsvBits=%v,%v,%v Header=%v,%v,%v", rsv, r1, r2, r3, h.Rsv1(), h.Rsv2(), h.Rsv3())
+					}
+					if rsv < 8 && ws.Rsv(r1, r2, r3) != rsv {
+						return explore.Failf("Rsv-not-inverse-of-RsvBits", "rsv=%03b", rsv)
+					}
+					st := ws.State(rsv)
+					for _, v := range []ws.State{ws.StateServerSide, ws.StateClientSide, ws.StateExtended, ws.StateFragmented, ws.StateServerSide | ws.StateExtended} {
+						if st.Set(v) != st|v || st.Clear(v) != st&^v || st.Is(v) != (st&v != 0) {
+							return explore.Failf("state-arithmetic", "state=%08b v=%08b", st, v)
+						}
+					}
+					if st.ServerSide() != (st&ws.StateServerSide != 0) || st.ClientSide() != (st&ws.StateClientSide != 0) || st.Extended() != (st&ws.StateExtended != 0) || st.Fragmented() != (st&ws.StateFragmented != 0) {
+						return explore.Failf("state-predicates", "state=%08b", st)
+					}
+					return nil
+				})
+			}
 			for c := 0; c < 65536; c++ {
 				code := ws.StatusCode(c)
 				t.Do(func() string { return fmt.Sprintf("status %d", c) }, func() *explore.Fail {
@@ -98,6 +122,19 @@ func main() {
 					}
 					if code.Empty() != (c == 0) {
 						return explore.Failf("Empty", "code=%d", c)
+					}
+					// the exported ranges and the range test itself, with ranges of the caller's own
+					if code.In(ws.StatusRangeNotInUse) != in(0, 999) || code.In(ws.StatusRangeProtocol) != in(1000, 2999) ||
+						code.In(ws.StatusRangeApplication) != in(3000, 3999) || code.In(ws.StatusRangePrivate) != in(4000, 4999) {
+						return explore.Failf("In(exported-range)", "code=%d", c)
+					}
+					for _, rg := range [][2]int{{0, 0}, {c, c}, {c, 65535}, {0, c}, {c + 1, 65535}, {1000, 1000}, {999, 1000}, {65535, 65535}, {2000, 1000}} {
+						if rg[0] > 65535 {
+							continue
+						}
+						if code.In(ws.StatusCodeRange{Min: ws.StatusCode(rg[0]), Max: ws.StatusCode(rg[1])}) != in(rg[0], rg[1]) {
+							return explore.Failf("In(range)", "code=%d range=%v", c, rg)
+						}
 					}
 					defined := in(1000, 1003) || in(1005, 1011) || c == 1015
 					if code.IsProtocolDefined() != defined {
